@@ -187,6 +187,12 @@ def _props(style):
     return _g(lambda: [(p.name, p.literalname, p.value, p.priority) for p in style.getProperties(all=True)])
 
 
+def _ns(obj):
+    """the prefix -> URI mapping a selector / selector list / style rule resolves its prefixes with: the documented ``_namespaces``
+    property (the sheet's mapping when attached, the object's own when detached) - these classes have no other accessor for it"""
+    return _g(lambda: sorted(obj._namespaces.items(), key=repr))
+
+
 def snap(obj):  # noqa: C901
     """JSON-able snapshot of what the statement calls observable: serialisation + structural queries"""
     import cssutils
@@ -216,6 +222,7 @@ def snap(obj):  # noqa: C901
             d['selectors'] = _g(lambda: [s.selectorText for s in obj.selectorList])
             d['style'] = _g(lambda: obj.style.cssText)
             d['properties'] = _props(obj.style)
+            d['namespaces'] = _ns(obj)
         if isinstance(obj, (C.CSSMediaRule, C.CSSImportRule)):
             d['mediaText'] = _g(lambda: obj.media.mediaText)
             d['media'] = _g(lambda: [mq.value.mediaText for mq in obj.media])
@@ -276,10 +283,12 @@ def snap(obj):  # noqa: C901
         d['selectorText'] = _g(lambda: obj.selectorText)
         d['selectors'] = _g(lambda: [s.selectorText for s in obj])
         d['length'] = _g(lambda: obj.length)
+        d['namespaces'] = _ns(obj)
     elif isinstance(obj, C.Selector):
         d['selectorText'] = _g(lambda: obj.selectorText)
         d['specificity'] = _g(lambda: obj.specificity)
         d['element'] = _g(lambda: obj.element)
+        d['namespaces'] = _ns(obj)
     elif isinstance(obj, S.MediaList):
         d['mediaText'] = _g(lambda: obj.mediaText)
         d['media'] = _g(lambda: [mq.value.mediaText for mq in obj])
@@ -546,7 +555,40 @@ def _detached():
         'new SelectorList': lambda: C.SelectorList('a, b'),
         'new MediaList': lambda: S.MediaList('print, tv'),
         'new MediaQuery': lambda: S.MediaQuery('print and (min-width: 1px)'),
+        # detached objects that resolve namespace prefixes with a mapping of their own (the (text, namespaces) constructor form): selector,
+        # selector list, style rule, style rule inside a detached @media rule - and every selector / selector list inside them as target
+        # (a factory may return (target, owner): the owner is snapshotted like an owning rule)
+        'new Selector (namespaced)': lambda: C.Selector((NS_SELECTOR, dict(NS_DETACHED))),
+        'new SelectorList (namespaced)': lambda: C.SelectorList((NS_SELECTORLIST, dict(NS_DETACHED))),
+        'new SelectorList (namespaced)[0]': lambda: _inside(C.SelectorList((NS_SELECTORLIST, dict(NS_DETACHED))), lambda sl: sl[0]),
+        'new SelectorList (namespaced)[-1]': lambda: _inside(C.SelectorList((NS_SELECTORLIST, dict(NS_DETACHED))), lambda sl: sl[-1]),
+        'new CSSStyleRule (namespaced)': lambda: _ns_rule(),
+        'new CSSStyleRule (namespaced).selectorList': lambda: _inside(_ns_rule(), lambda r: r.selectorList),
+        'new CSSStyleRule (namespaced).selector[0]': lambda: _inside(_ns_rule(), lambda r: r.selectorList[0]),
+        'new CSSStyleRule (namespaced).selector[-1]': lambda: _inside(_ns_rule(), lambda r: r.selectorList[-1]),
+        'new CSSMediaRule>style (namespaced)': lambda: _inside(_ns_media(), lambda m: m.cssRules[0]),
+        'new CSSMediaRule>style (namespaced).selectorList': lambda: _inside(_ns_media(), lambda m: m.cssRules[0].selectorList),
+        'new CSSMediaRule>style (namespaced).selector[0]': lambda: _inside(_ns_media(), lambda m: m.cssRules[0].selectorList[0]),
     }
+
+
+NS_DETACHED = {'p': 'u', 'q': 'v', '': 'd'}
+NS_SELECTOR = 'p|a > q|b[p|c] *|d |e'
+NS_SELECTORLIST = 'p|a, q|b p|c, d'
+
+
+def _inside(owner, f):
+    return f(owner), owner
+
+
+def _ns_rule():
+    return _C().CSSStyleRule(selectorText=(NS_SELECTORLIST, dict(NS_DETACHED)), style='color: red; left: 0')
+
+
+def _ns_media():
+    m = _C().CSSMediaRule('print')
+    m.add(_ns_rule())
+    return m
 
 
 # --------------------------------------------------------------------------------------------------------------------
@@ -1001,10 +1043,31 @@ def _count_codec_kinds(tier):
     return out
 
 
+# (c) 'argument form': the selector text setters take a plain string or the tuple (text, {prefix: URI}); every rejected selector text
+#     of the tables is given in the tuple form as well (stage name + '/ns-tuple'), with a mapping that re-binds one prefix of the
+#     detached prior states and brings a new one - what a refused call must not leave behind.
+NS_TUPLE = {'p': 'other', 'z': 'zz'}
+SELECTOR_TEXT_KEYS = {('Selector', 'selectorText'): 0, ('SelectorList', 'selectorText'): 0, ('SelectorList', 'appendSelector'): 0, ('SelectorList', 'append'): 0,
+                      ('CSSStyleRule', 'selectorText'): 0, ('SelectorList', '__setitem__'): 1}
+
+
+def _ns_tuple_inputs(key, table):
+    pos = SELECTOR_TEXT_KEYS[key]
+    out = []
+    for stage, args in table:
+        if callable(args) or len(args) <= pos or not isinstance(args[pos], str):
+            continue
+        out.append((stage + '/ns-tuple', args[:pos] + ((args[pos], dict(NS_TUPLE)),) + args[pos + 1:]))
+    return out
+
+
 def _axis_inputs(key, cls, tier):
-    """the mechanically built inputs for the table ``key`` (see (a) and (b) above)"""
+    """the mechanically built inputs for the table ``key`` (see (a), (b) and (c) above)"""
     import cssutils.css as C
     out = []
+    if key in SELECTOR_TEXT_KEYS:
+        v = INPUTS[key]
+        out += _ns_tuple_inputs(key, v() if callable(v) else v)
     if key[1] == 'cssText' and issubclass(cls, C.CSSRule):
         out += _other_rule_inputs()
     if key in (('CSSCharsetRule', 'encoding'), ('CSSStyleSheet', 'encoding')):
@@ -1043,6 +1106,8 @@ def _fresh(state, locname):
     """-> (target, owner, sheet) or None"""
     if state == 'detached':
         t = _detached()[locname]()
+        if isinstance(t, tuple):  # a target inside a detached object: (target, owner)
+            return t[0], t[1], None
         return t, None, None
     if state == 'created-readonly':
         t = _readonly_factories()[locname]()
@@ -1061,6 +1126,8 @@ def _argrepr(args):
             out.append(a)
         elif isinstance(a, (tuple, list)) and all(isinstance(x, (str, int, type(None))) for x in a):
             out.append(list(a))
+        elif isinstance(a, tuple) and len(a) == 2 and isinstance(a[0], str) and isinstance(a[1], dict):
+            out.append([a[0], dict(a[1])])  # the (text, namespaces) argument form
         else:
             out.append('<%s %s>' % (type(a).__name__, _g(lambda a=a: getattr(a, 'cssText', None) if not isinstance(a, list) else [getattr(r, 'cssText', r) for r in a])))
     return out
@@ -1613,9 +1680,11 @@ def rejected(ctx):
                  'rejected immediately / after an acceptable prefix / inside a nested object / by position, '
                  f'plus two mechanically built axes - the cssText setter of every rule kind is given {len(_other_rule_inputs())} well-formed texts covering every rule kind (unknown at-rules with the same and with '
                  f'another at-keyword in every body form), and CSSCharsetRule.encoding / .cssText and CSSStyleSheet.encoding are given {len(codec_names(ctx.tier))} spellings of the codecs Python ships '
-                 '(' + ', '.join(f'{n} {k}' for k, n in sorted(_count_codec_kinds(ctx.tier).items())) + '; classified by the codec machinery alone) - x '
-                 f'{len(states_of(ctx.tier))} prior sheets (every reachable target of each) + {len(_detached())} detached objects, each case on a freshly parsed state in raising mode' + (' and in log-only mode' if ctx.tier != 'quick' else '') + '; '
-                 'compared: cssText of target / owner rule / sheet, rule types, property list, selector list, media list, namespaces, and the serialisation of target / owner rule / sheet under '
+                 '(' + ', '.join(f'{n} {k}' for k, n in sorted(_count_codec_kinds(ctx.tier).items())) + '; classified by the codec machinery alone), and every rejected selector text of the tables is given to '
+                 f'the {len(SELECTOR_TEXT_KEYS)} selector text mutators in the (text, namespaces) tuple form as well - x '
+                 f'{len(states_of(ctx.tier))} prior sheets (every reachable target of each) + {len(_detached())} detached objects ({sum(1 for k in _detached() if "namespaced" in k)} of them namespaced: selector, selector list, style rule and style rule '
+                 'inside a detached @media rule built with a prefix mapping of their own, and the selectors / selector lists inside them), each case on a freshly parsed state in raising mode' + (' and in log-only mode' if ctx.tier != 'quick' else '') + '; '
+                 'compared: cssText of target / owner rule / sheet, rule types, property list, selector list, media list, namespaces (of sheets, and the prefix mapping selectors / selector lists / style rules resolve with), and the serialisation of target / owner rule / sheet under '
                  f'{len(profiles)} non-default serializer preference profiles (the {len(vars(__import__("cssutils").ser.prefs))} preferences at a non-default value one at a time' + (' - string-valued ones only jointly -' if ctx.tier == 'quick' else '') + ', useMinified(), all flipped at once); '
                  'distinct = (class, mutator, stage, DOM exception) combinations that were actually rejected'),
         'rejected_calls': sum(r['rejected'] for r in results), 'rejected_calls_log_only_mode': sum(r['rejected'] for r in results if len(r['job']) > 7 and r['job'][7] is False), 'accepted_calls': sum(r['accepted'] for r in results), 'non_dom_exceptions': sum(r['other'] for r in results),
@@ -1624,7 +1693,7 @@ def rejected(ctx):
         'preference_profiles': list(profiles),
         'bound': (f'{len(jobs)} (state, target, mutator) jobs; fixed input tables; every rule kind x {len(_other_rule_inputs())} well-formed rule texts; codec names: every module of the encodings package'
                   ' that is not an ASCII-compatible text codec (underscore, hyphen and upper-case spelling) and ' + ('every sixth ASCII-compatible one' if ctx.tier == 'quick' else 'every ASCII-compatible one, plus the registered aliases of the former') + '; '
-                  f'{len(states_of(ctx.tier))} prior states; {len(profiles)} serializer preference profiles besides the defaults '
+                  f'{len(states_of(ctx.tier))} prior states; detached namespaced states: one selector ({NS_SELECTOR!r}), one selector list ({NS_SELECTORLIST!r}), one mapping ({NS_DETACHED!r}); tuple-form mapping {NS_TUPLE!r}; {len(profiles)} serializer preference profiles besides the defaults '
                   '(boolean preferences flipped, importHrefFormat at both documented values, string-valued preferences ' + ("only jointly at ''" if ctx.tier == 'quick' else "one at a time at '' and a tab") + '); calls made with cssutils.log.raiseExceptions in '
                   + repr(error_modes(ctx.tier, False)))})
 
